@@ -702,7 +702,7 @@ def r12(ctx):
 def run(ctx):
     import rules.common as _cmp
     ctx.rule('C07.R13', 'a parsed integer is scaled only after it was bounded: in the data type and field sources the 64 bit result of strtol / strtoul is never multiplied or shifted in integer arithmetic unless constants bound it on the way (the number types scale in double, which cannot wrap) - the unchecked product of a 17 to 19 digit text with the divisor wraps around and lands inside the range of the field, so that an absurd input is written as a small value (checked against a positive example on every run)', minimum=2)
-    _cmp.parsed_scale_rule(ctx, 'C07.R13', lambda f: f.relfile.startswith(('src/lib/ebus/datatype.', 'src/lib/ebus/data.')), 3)
+    _cmp.parsed_scale_rule(ctx, 'C07.R13', lambda f: f.relfile.startswith(('src/lib/ebus/datatype.', 'src/lib/ebus/data.')), 2)
     r12(ctx)
     r11(ctx)
     r10(ctx)
